@@ -9,16 +9,29 @@ OVERLAY = {"server/zz_verif_common_test.go": "server/verif_common_test.go",
 
 
 def run(ctx, race, name="sched.jsonl"):
-    rc, out, p, dt = C.go_test_overlay(ctx.work, "./server/", "TestVerifServerSchedules", OVERLAY, name, ctx.seed, ctx.tier,
+    rc, out, p, dt = C.go_test_overlay(ctx.work, "./server/", "TestVerifServer(Schedules|IDs)$", OVERLAY, name, ctx.seed, ctx.tier,
                                        race=race, timeout=3000 if ctx.thorough else 900)
-    rows = [r for r in C.read_jsonl(p) if r.get("kind") == "schedule"]
+    allrows = C.read_jsonl(p)
+    rows = [r for r in allrows if r.get("kind") == "schedule"]
+    ids = [r for r in allrows if r.get("kind") == "ids"]
     for r in rows:
         r["events"] = r.get("events") or []
         r["results"] = r.get("results") or []
     races = race_reports(out)
     if not rows or (rc != 0 and not races):
         raise RuntimeError("server schedule harness did not run: rc=%s\n%s" % (rc, out[-2500:]))
-    return {"schedules": rows, "races": races, "race": race, "wall_s": dt}
+    return {"schedules": rows, "races": races, "race": race, "wall_s": dt, "ids": ids}
+
+
+def oracle_ids(obs):
+    res = []
+    for r in obs.get("ids") or []:
+        rp = {"driver": "TestVerifServerIDs: %d proxy instances created one after the other, %d IDs drawn from each" % (r["instances"], r["per_instance"]), "observed": r}
+        if r["repeated_within_an_instance"]:
+            res.append(("request-id-repeated:within-one-proxy", "%d request IDs were drawn twice by one proxy instance" % r["repeated_within_an_instance"], rp))
+        if r["repeated_across_instances"]:
+            res.append(("request-id-repeated:across-proxy-instances", "%d request IDs drawn by one proxy instance had been drawn by an earlier instance (a restarted proxy hands an agent IDs it has already seen, or receives uploads meant for its predecessor's requests)" % r["repeated_across_instances"], rp))
+    return res
 
 
 def race_reports(out):
